@@ -5,6 +5,12 @@ V = os.path.dirname(os.path.dirname(os.path.abspath(__file__)))
 ALL = ["C%02d" % i for i in range(1, 21)]
 
 CLAIMED = {
+ "C17": dict(
+   level="exploration",
+   text="Scenarios of 2-4 initial plus concurrently started sessions of one executor, driven by 2-6 host threads with 4-31 operations each (start session, cross-session send immediately / delayed, invoke inline child of four kinds with optional autoforward, leave the invoking state, send to child, FsmExecutor::send_to_session, cancel) and an optional final FsmExecutor::shutdown racing with sending sessions. The instrumented mutex of the Verif_Hooks feature records per thread which lock classes are requested while which are held, detects wait-for cycles at blocking time (owner/waiter tables), injects seeded jitter and holds threads between generated (held class, requested class) pairs (steering). Oracle: every host thread finishes and every session thread ends after cancel; a recorded wait-for cycle is the proof of a deadlock.",
+   design="6/C17",
+   note="Search, not proof: schedules are sampled and steered over the four instrumented lock classes (executor state, I/O processor, global data, data values); locks inside the timer crate, std mpsc and tokio are not instrumented. A stall without a recorded cycle is reported as inconclusive (exit 2). Class-level lock-order cycles that never materialise (e.g. a new session's own global data -> processor) are listed in the evidence as candidates, not alarmed.",
+   technique="property-based concurrency testing: generated multi-session scenarios + schedule steering/jitter at instrumented locks + wait-for-cycle detection and progress oracle"),
  "C13": dict(
    level="exploration",
    text="Scenarios with 1-8 concurrent producers (host threads through the session sender and through FsmExecutor::send_to_session, a sibling session sending in a foreach, delayed self-sends fired by the timer thread) x 1-60 events each, with generated sleeps, a pause inside the receiver's macrostep and optional seeded lock jitter (hook). History invariants on the receiver's mark log: every event processed exactly once, each producer's events in its send order, each event's two internal follow-ups processed before the next external event (no overlap).",
@@ -127,7 +133,7 @@ def main():
             "guard": "Verif_Hooks",
             "enable": "the harness crate depends on ruFsm with feature Verif_Hooks (harness/Cargo.toml); instrumented mutex rufsm::verif_sync::Mutex: tracking and jitter are off unless a check switches them on",
             "baseline_off_cmd": "cd /repo && cargo test --workspace --no-fail-fast --offline",
-            "source_commits": ["01a12b2"],
+            "source_commits": ["01a12b2", "09088ef"],
             "add_only": True,
         },
         "engines": [{"name": "rfsm_verif", "path": "harness/", "serves_properties": sorted(CLAIMED.keys()),
